@@ -4,8 +4,8 @@ package main
 // Monitor M3 only: executions the property equates are compared with each other.
 
 import (
-	"io"
 	"fmt"
+	"io"
 	"math/rand/v2"
 	"strconv"
 	"strings"
@@ -15,11 +15,12 @@ import (
 )
 
 type poolCase struct {
-	prog  string
-	sels  []string
-	input []byte
-	kind  string
-	multi bool // touches an object with >= 2 keys or a prototype method
+	prog    string
+	sels    []string
+	input   []byte
+	kind    string
+	multi   bool // touches an object with >= 2 keys or a prototype method
+	withMsg bool // the error message is part of the compared outcome
 }
 
 func objKeysLit(rng *rand.Rand, n int) (*ObjectLit, map[string]any) {
@@ -220,7 +221,38 @@ func caseFamily(rng *rand.Rand) poolCase {
 	return poolCase{prog: prog, input: []byte(in.String()), kind: "case-variant-keys", multi: true}
 }
 
+// unwritableFamily: a root (or a json() argument) with several members that cannot be written as JSON -- a regex,
+// a function, a reference to an enclosing container: the run fails, and with the same report every time
+func unwritableFamily(rng *rand.Rand) poolCase {
+	bad := []string{"/x/", "printf", "$", "self", "json", "/y+/"}
+	keys := []string{"r", "self", "a", "zz", "B", "m1", "m2", "k"}
+	rng.Shuffle(len(keys), func(i, j int) { keys[i], keys[j] = keys[j], keys[i] })
+	n := 2 + rng.IntN(4)
+	var sb strings.Builder
+	if rng.IntN(2) == 0 {
+		sb.WriteString("{ self = $; ")
+		for i := 0; i < n; i++ {
+			fmt.Fprintf(&sb, "$.%s = %s; ", keys[i], bad[rng.IntN(len(bad))])
+		}
+		sb.WriteString("print 'stored' }")
+		return poolCase{prog: sb.String(), input: []byte(`{"first": 1, "second": [2]}`), kind: "unwritable-root", multi: true}
+	}
+	sb.WriteString("BEGIN { self = {}; o = self; ")
+	for i := 0; i < n; i++ {
+		b := bad[rng.IntN(len(bad))]
+		if b == "$" {
+			b = "o"
+		}
+		fmt.Fprintf(&sb, "o.%s = %s; ", keys[i], b)
+	}
+	sb.WriteString("print 'stored'; print json(o) }")
+	return poolCase{prog: sb.String(), input: []byte("[1]"), kind: "unwritable-json-argument", multi: true, withMsg: true}
+}
+
 func c10PoolRaw(rng *rand.Rand) poolCase {
+	if rng.IntN(25) == 0 {
+		return unwritableFamily(rng)
+	}
 	if rng.IntN(14) == 0 {
 		return caseFamily(rng)
 	}
@@ -316,7 +348,11 @@ func c10RunChunked(pc poolCase, sizes []int) (c10Sig, bool) {
 	if o.Class == "budget" {
 		return c10Sig{}, false
 	}
-	return c10Sig{class: o.Class, stdout: string(o.Stdout), root: o.RootJSON + "|" + o.RootErr}, true
+	sig := c10Sig{class: o.Class, stdout: string(o.Stdout), root: o.RootJSON + "|" + o.RootErr}
+	if pc.withMsg {
+		sig.root += "|" + o.Msg // what json() reports is the JSON outcome of these programs
+	}
+	return sig, true
 }
 
 // siblingText returns a program of identical layout in which every string, regex and number literal has other
@@ -536,7 +572,7 @@ func c10Run(c *Case) {
 func init() {
 	register(&Prop{
 		ID: "C10", Level: "exploration",
-		Rule: "metamorphic: a case (program, selectors, input) drawn from a pool (object family: print / printf %v / for-in / json() / key collection+sort / pluck over objects with 2-16 keys from literals and from the input; whole-grammar programs; objects whose keys differ only in case, read and stored under spellings that are and are not keys; selectors with a memory (counters, collections: they start afresh in every run); a container-comparison family (objects of 2-6 mixed members compared, searched and matched: the outcome, error or not, is the same every time); inputs prefixed with a byte order mark, half of one, a record separator or white space; a literal-content family whose output depends on every regex / string / number literal at fixed source positions, in rules, functions, match cases and selectors; structured, function, assignment-history, match programs; document printing; selectors; 12 'disturber' programs that assign to method names, fail inside calls, hit limits, build cycles) is executed in-process 8 times back to back, 3 more times each after 1-3 unrelated pool/disturber runs in the same process, 4 times with the same input bytes delivered in reads of 1 / 1-2 / 1-7 / 5 bytes, once more after its position-preserving sibling (same layout, every string / regex / number literal replaced by other content of the same length, in program and selectors), and (every 4th case) in 4 fresh processes of the binary with -o -; stdout, JSON output (or its error) and outcome class must be byte-identical across all of them. Non-trivial = the case touches an object with >= 2 keys or a prototype method; distinct by program+input+selectors. Go randomises map iteration per range statement, so an order-dependent output over n >= 3 keys repeats 11 times by chance with probability < 1e-8.",
+		Rule: "metamorphic: a case (program, selectors, input) drawn from a pool (object family: print / printf %v / for-in / json() / key collection+sort / pluck over objects with 2-16 keys from literals and from the input; whole-grammar programs; objects whose keys differ only in case, read and stored under spellings that are and are not keys; selectors with a memory (counters, collections: they start afresh in every run); a container-comparison family (objects of 2-6 mixed members compared, searched and matched: the outcome, error or not, is the same every time); inputs prefixed with a byte order mark, half of one, a record separator or white space; a literal-content family whose output depends on every regex / string / number literal at fixed source positions, in rules, functions, match cases and selectors; structured, function, assignment-history, match programs; document printing; selectors; 12 'disturber' programs that assign to method names, fail inside calls, hit limits, build cycles) is executed in-process 8 times back to back, 3 more times each after 1-3 unrelated pool/disturber runs in the same process, 4 times with the same input bytes delivered in reads of 1 / 1-2 / 1-7 / 5 bytes, once more after its position-preserving sibling (same layout, every string / regex / number literal replaced by other content of the same length, in program and selectors), and (every 4th case) in 4 fresh processes of the binary with -o -; stdout, JSON output (or its error) and outcome class must be byte-identical across all of them. Non-trivial = the case touches an object with >= 2 keys or a prototype method; distinct by program+input+selectors. Go randomises map iteration per range statement, so an order-dependent output over n >= 3 keys repeats 11 times by chance with probability < 1e-8.; an unwritable family: a root or json() argument with 2-5 members that cannot be written as JSON (regex, function, reference to an enclosing container) fails with the same report every time",
 		NumCases: func(tier string) int {
 			if tier == "thorough" {
 				return 60000
